@@ -1220,6 +1220,46 @@ def systematic_closures(natives: List[str]) -> List[Tuple[str, dict]]:
 
 
 
+def substring_name_closures() -> List[dict]:
+    """constants whose names are the leading part / the tail / an inner part of other constants' names, used together in
+    one expression or array length, in both orders (expand_expression substitutes whole words only)"""
+    out = []
+    consts = [("const", "N", ("lit", 4)), ("const", "N_MAX", ("lit", 6)), ("const", "MAX", ("lit", 3)), ("const", "CH", ("lit", 2)),
+              ("const", "CH_PER_N", ("lit", 8)), ("const", "A", ("lit", 5)), ("const", "AA", ("lit", 7)), ("const", "XAAX", ("lit", 9))]
+    R = lambda n: ("ref", n)
+    derived = [("const", "P1", ("mul", R("N"), R("N_MAX"))), ("const", "P2", ("mul", R("N_MAX"), R("N"))),
+               ("const", "P3", ("add", R("MAX"), R("N_MAX"))), ("const", "P4", ("sub", R("N_MAX"), R("MAX"))),
+               ("const", "P5", ("add", ("div", R("CH_PER_N"), 2), R("CH"))), ("const", "P6", ("mul", R("CH"), R("CH_PER_N"))),
+               ("const", "P7", ("add", R("A"), R("AA"))), ("const", "P8", ("mul", R("AA"), R("A"))),
+               ("const", "P9", ("add", ("add", R("A"), R("XAAX")), R("AA"))), ("const", "P10", ("sub", ("mul", R("XAAX"), R("AA")), R("A")))]
+    fields = F(("f1", "int8", ("mul", R("N"), R("N_MAX"))), ("f2", "int16", ("add", R("N_MAX"), R("N"))), ("f3", "char", ("add", R("MAX"), R("N_MAX"))),
+               ("f4", "int32", ("div", ("mul", R("CH_PER_N"), R("CH")), 4)), ("f5", "uint8", ("add", R("CH"), R("CH_PER_N"))),
+               ("f6", "double", ("sub", R("AA"), R("A"))), ("f7", "int8", ("add", R("A"), R("AA"))), ("f8", "uint16", ("sub", R("XAAX"), R("AA"))))
+    out.append(dict(tag="substring-names:same-file", cl=dict(files=[dict(path="root.yaml", imports=[], items=consts + derived + [
+        ("struct", "S1", fields), ("msg", "M1", 901, F(("s", "S1", R("N")), ("t", "int8", R("P1"))))])],
+        auto_pad=True, import_coredefs=False), coq=True, expect="accept"))
+    out.append(dict(tag="substring-names:imported", cl=dict(files=[
+        dict(path="root.yaml", imports=[1], items=derived + [("struct", "S1", fields)]),
+        dict(path="inc/k.yaml", imports=[], items=consts)], auto_pad=True, import_coredefs=False), coq=True, expect="accept"))
+    return out
+
+
+def long_name_closures(lo: int = 40, hi: int = 50) -> List[dict]:
+    """one closure per name length lo..hi: a constant, a host id, a module id, a struct, a message and a signal whose names
+    have exactly that many characters (c99.py pads macro names to a column)"""
+    out = []
+    for n in range(lo, hi + 1):
+        def nm(p):
+            base = f"{p}{n}_"
+            return base + "N" * (n - len(base))
+        items = [("const", nm("Kc"), ("lit", 3)), ("hid", nm("Hh"), 11), ("mid", nm("Dm"), 21),
+                 ("struct", nm("Ss"), F(("a", "int16", ("ref", nm("Kc"))), ("b", "int32", None))),
+                 ("msg", nm("Mm"), 900 + n, F(("s", nm("Ss"), None), ("c", "uint8", None))), ("msg", nm("Sg"), 950 + n, None)]
+        out.append(dict(tag=f"name-length:{n}", cl=dict(files=[dict(path="root.yaml", imports=[], items=items)],
+                                                         auto_pad=True, import_coredefs=False), coq=True))
+    return out
+
+
 def cyclic_closures() -> List[dict]:
     """Import graphs with cycles.  Legal closures: parse_file registers a file in included_files BEFORE it reads it, so a
     file that is still being parsed is not entered again - each file is read exactly once and the closure compiles.
@@ -1384,6 +1424,8 @@ def cross_language_check(res: dict, obs: dict, parser_types: Dict[str, Tuple[int
                 d = {k: (exp.get(k), got.get(k)) for k in set(exp) | set(got) if exp.get(k) != got.get(k)}
                 pfx = {"constants": "defines_", "hids": "HID_", "mids": "MID_", "mts": "MT_"}[sec]
                 key = f"scalars:{lang}:{sec}"
+                if lang == "c" and d and all(len(k) >= 48 for k in d if k in exp) and any(k in exp for k in d):
+                    key = "c:long-name-macro-glued"      # `#define MT_{name:<48}{value}`: no blank left for a name of 48+ characters
                 miss = [k for k in d if k in exp]     # names of the parsed model the matlab output does not have (with that value)
                 if lang == "m" and miss and all((pfx in k) for k in miss):
                     # generate_field strips the section prefix: from the front of the name only (since 689365a; that
@@ -1393,6 +1435,24 @@ def cross_language_check(res: dict, obs: dict, parser_types: Dict[str, Tuple[int
                 bad.append((key, f"{lang} {sec} differ from the parsed model: {str(d)[:200]}"))
     hashes = {m["name"]: int(m["hash"][:8], 16) for m in model["messages"]}
     hashes_c = {m["name"]: int(m["hash"][:8], 16) for m in model["messages"] if not core(m["src"])}
+    # ---- the C macros as the preprocessor sees them (gcc -E -dM): every user constant / id / hash is an object-like macro
+    #      of the documented name whose replacement text is the value the other languages publish
+    mac = (L.get("c") or {}).get("macros")
+    if mac is not None:
+        expm = [("constants", c[0], c[0], c[1]) for c in model["constants"] if not core(c[3])] + \
+               [("hids", "HID_" + h[0], h[0], h[1]) for h in model["host_ids"] if not core(h[2])] + \
+               [("mids", "MID_" + h[0], h[0], h[1]) for h in model["module_ids"] if not core(h[2])] + \
+               [("mts", "MT_" + h[0], h[0], h[1]) for h in model["message_ids"] if not core(h[2])] + \
+               [("hashes", "HASH_" + k, k, v) for k, v in hashes_c.items()]
+        for sec, mname, uname, val in expm:
+            got = mac.get(mname)
+            okv = got is not None and (hexnum(got) == val if sec == "hashes" else str(as_int(got)) == str(as_int(val)) or got == str(val))
+            if not okv:
+                glued = [k for k in mac if k.startswith(mname) and k != mname]
+                key = "c:long-name-macro-glued" if (len(uname) >= 48 and glued and sec != "hashes") else f"macro:c:{sec}"
+                bad.append((key, f"C preprocessor: macro {mname} is {'undefined' if got is None else repr(got)}, the other outputs publish "
+                                 f"{val if sec != 'hashes' else hex(val)}" + (f"; the header defines {glued[0]!r} instead (name glued to the value: "
+                                 f"the name has {len(uname)} characters)" if glued else "")))
     for lang, key, sani in (("c", "hashes", False), ("js", "hashes", False), ("m", "hashes", True)):
         got = {}
         for k, v in rd[lang][key]:
